@@ -13,7 +13,7 @@ import os
 import re
 import typing as T
 
-from . import common, c17_gen as G, c17_real as R, c17_tables
+from . import common, c17_gen as G, c17_real as R, c17_tables, c17_flow as F
 from .common import Ctx, enc, dec, enc_list
 
 ID = 'C17'
@@ -39,6 +39,14 @@ PINS = [
     'mesonbuild.ast.postprocess:AstIndentationGenerator',
     'mesonbuild.mparser:StringNode',
     'mesonbuild.mparser:Lexer.lex',
+    'mesonbuild.ast.interpreter:AstInterpreter.evaluate_if',
+    'mesonbuild.ast.interpreter:AstInterpreter.evaluate_foreach',
+    'mesonbuild.ast.interpreter:AstInterpreter.evaluate_plusassign',
+    'mesonbuild.ast.interpreter:AstInterpreter.assignment',
+    'mesonbuild.ast.interpreter:AstInterpreter.get_cur_value_if_defined',
+    'mesonbuild.ast.interpreter:AstInterpreter.node_to_runtime_value',
+    'mesonbuild.ast.introspection:IntrospectionInterpreter.build_target',
+    'mesonbuild.rewriter:Rewriter.find_target',
 ]
 TRUSTED = [
     'the real mparser.Parser / Lexer are used by the oracle to read files back (spans, token stream, trees)',
@@ -162,7 +170,7 @@ def oracle_step(bf: T.Any, af: T.Any, cmd: T.Dict[str, T.Any], status: str, meta
                     cf |= spellings(f_)
                 if what == 'extra':
                     keys = {'extra_files'}
-                shared = name in meta.get('shared', [])
+                shared = name in meta.get('shared', []) or meta.get('hazard') == 'flow'   # flow family: judged by ground truth
                 scalar_extra = what == 'extra' and isinstance(R.kwarg(tb[1], 'extra_files'), R.mp().StringNode)
                 exp = (set(fb) | req) if op.endswith('add') else (set(fb) - req)
                 res['target'] = name
@@ -543,8 +551,35 @@ def run_case(case: T.Dict[str, T.Any]) -> T.Dict[str, T.Any]:
                 step = oracle_step(bf, af, group[0], status, meta, cap_applied=bool(recs),
                                    nested=any(R.nested_works(r['works']) for r in recs),
                                    cwd_root=case.get('cwd', 'root') != 'outside')
+                if case.get('flow') and not step['viol']:
+                    # ground truth: the build files executed for every configuration of the branch conditions
+                    fv, ft = F.flow_oracle(bf, af, group[0], status)
+                    step['viol'] += fv[:3]
+                    step['tags'] += ft
                 _collect(out, step, case, ci, group[0], bf, af, status)
                 _lean_apply(out, recs, bf, af_raw, root)
+                if case.get('flow') and status == 'ok' and not step['viol'] and group[0].get('type') == 'target' and \
+                        group[0].get('operation') != 'target_rm':
+                    # `info` is judged only where the real list does not depend on the configuration
+                    tn = group[0]['target']
+                    for what_, field_ in (('src', 'sources'), ('extra', 'extra_files')):
+                        want_ = F.config_independent(af, tn, what_)
+                        if want_ is None:
+                            out['tags'].append('flow:info-skipped:configuration-dependent')
+                            continue
+                        st3, so3, _se3 = R.run_rewriter(root, [{'type': 'target', 'target': tn, 'operation': 'info'}])
+                        try:
+                            ent_ = list(json.loads(so3)['target'].values())[0]
+                            got_ = sorted(os.path.normpath(x) for x in ent_[field_])
+                            out['tags'].append('flow:info-checked')
+                            if 'unknown' in got_:
+                                out['tags'].append('flow:info-reports-unknown')
+                            elif got_ != sorted(want_):
+                                out['viol'].append(('flow:info-differs-from-real-value',
+                                                    f'info reports {field_} {got_} for {tn}; executed in every configuration: {want_}',
+                                                    _case_of(case, ci)))
+                        except Exception as e:
+                            out['viol'].append(('info:unreadable', f'info on {tn}: {st3} {type(e).__name__}', _case_of(case, ci)))
                 for rec_ in recs:
                     for w_ in rec_['works']:
                         m_ = [int(x) for x in w_['meta'].split(',')]
@@ -646,7 +681,7 @@ def _script_mode(case: T.Dict[str, T.Any], cmds: T.List[T.Dict[str, T.Any]], sta
 
 def _case_of(case: T.Dict[str, T.Any], upto: int) -> T.Dict[str, T.Any]:
     return {'files': {f: t for f, t in case['files'].items() if os.path.basename(f) == 'meson.build'},
-            'cmds': case['cmds'][:upto + 1], 'cwd': case.get('cwd', 'root'),
+            'cmds': case['cmds'][:upto + 1], 'cwd': case.get('cwd', 'root'), 'flow': bool(case.get('flow')),
             'meta': {k: case['meta'][k] for k in ('pool', 'extra_pool', 'shared', 'allfiles') if k in case['meta']}, 'mode': 'single'}
 
 
@@ -809,6 +844,25 @@ CORPUS_TREES = [
 ]
 
 
+_FLOW_HEAD = "project('demo')\nsrcs_a = ['f0.c']\nex_a = ['g0.txt']\n"
+CORPUS_FLOW = [
+    # a variable defined before the clause, re-assigned in one branch, consumed by a target in ANOTHER branch
+    (_FLOW_HEAD + "if get_option('oa')\n  srcs_a = ['f1.c', 'f2.c']\n  ft0 = executable('ft0', srcs_a)\nelse\n  ft1 = executable('ft1', srcs_a, extra_files: ex_a)\nendif\n",
+     [{'type': 'target', 'target': 'ft1', 'operation': 'src_add', 'sources': ['new0.c']},
+      {'type': 'target', 'target': 'ft1', 'operation': 'info'}]),
+    (_FLOW_HEAD + "if get_option('oa')\n  ft0 = executable('ft0', 'f3.c')\nelif get_option('ob')\n  srcs_a = ['f1.c']\n  ex_a = ['g1.txt']\nelse\n  ft1 = library('ft1', srcs_a, extra_files: ex_a)\nendif\nft2 = executable('ft2', 'f4.c')\n",
+     [{'type': 'target', 'target': 'ft1', 'operation': 'info'},
+      {'type': 'target', 'target': 'ft1', 'operation': 'extra_files_add', 'sources': ['newe0.txt']},
+      {'type': 'target', 'target': 'ft1', 'operation': 'src_rm', 'sources': ['f0.c']}]),
+    (_FLOW_HEAD + "if get_option('oa')\n  srcs_a += ['f1.c']\nelse\n  foreach it : ['p']\n    ft1 = executable('ft1', srcs_a)\n  endforeach\nendif\nft2 = executable('ft2', srcs_a, 'f5.c')\n",
+     [{'type': 'target', 'target': 'ft1', 'operation': 'src_add', 'sources': ['new0.c']},
+      {'type': 'target', 'target': 'ft2', 'operation': 'src_add', 'sources': ['new0.c']}]),
+    # a list that also feeds targets in / after a foreach that writes the variable (known finding)
+    (_FLOW_HEAD + "ft0 = static_library('ft0', srcs_a)\nforeach it : ['p']\n  srcs_a += ['f1.c']\n  ft1 = library('ft1', srcs_a)\nendforeach\nft2 = static_library('ft2', srcs_a)\n",
+     [{'type': 'target', 'target': 'ft0', 'operation': 'src_rm', 'sources': ['f0.c']}]),
+]
+
+
 def hostile_family() -> T.List[T.Dict[str, T.Any]]:
     """the layout-hostile family: every token kind of the live lexer whose text can span lines (plus escapes, non-ASCII,
     tabs, continuations, trailing comments, no newline at EOF) next to the start / end of the edited node, for each edit kind"""
@@ -861,8 +915,9 @@ def _inflate(c: T.Dict[str, T.Any]) -> T.Dict[str, T.Any]:
     files = {f: '' for f in pool + epool + ['new0.c', 'new1.c', 'new2.c', 'newe0.txt', 'newe1.txt'] + list(allfiles)}
     files.update(c['files'])
     return {'files': files, 'cmds': c['cmds'], 'mode': c.get('mode', 'single'), 'prints': False, 'cwd': c.get('cwd', 'root'),
+            'flow': bool(c.get('flow')),
             'meta': {'pool': pool, 'extra_pool': epool, 'shared': c.get('meta', {}).get('shared', []), 'targets': {}, 'deps': {},
-                     'project': {}, 'hazard': 'replay', 'allfiles': list(allfiles)}}
+                     'project': {}, 'hazard': 'flow' if c.get('flow') else 'replay', 'allfiles': list(allfiles)}}
 
 
 # ================================================================================================ model-only streams
@@ -1038,6 +1093,8 @@ def _absorb(ctx: Ctx, cases: T.List[T.Dict[str, T.Any]], results: T.List[T.Dict[
                'reprinted-statement' in res['tags'])
         if 'file-changed' in res['tags']:
             ctx.seen_nontrivial((sig, hash(case['files']['meson.build'])))
+        for ft_ in case['meta'].get('features', []):
+            ctx.tag('flow-feature:' + ft_)
         if case['meta'].get('hazard') == 'tree':
             ctx.tag('tree:cwd-' + case.get('cwd', 'root'))
         if len(ctx.samples) < 6 and 'file-changed' in res['tags']:
@@ -1104,8 +1161,22 @@ def run(ctx: Ctx) -> None:
         cases.append(make_case(rng, hazard, rng.choice([1, 2, 2, 3])))
     for _ in range(ctx.scale(160, 1500)):
         cases.append(G.gen_tree(rng, rng.choice([1, 2, 2, 3])))
+    for text, cmds in CORPUS_FLOW:
+        cases.append(_inflate({'files': {'meson.build': text}, 'cmds': cmds, 'flow': True, 'cwd': 'outside',
+                               'meta': {'allfiles': ['f%d.c' % i for i in range(8)] + ['g0.txt', 'g1.txt', 'new0.c', 'newe0.txt']}}))
+    for _ in range(ctx.scale(170, 1500)):
+        cases.append(F.gen_flow(rng, rng.choice([1, 1, 2])))
     results = _pool_map(cases)
     prints = _absorb(ctx, cases, results)
+    # every construct of the live AstInterpreter that scopes / merges variables must be known to the control-flow family
+    # and must have occurred in a generated project
+    seen_feats = {k[len('flow-feature:'):] for k in ctx.dist if k.startswith('flow-feature:')}
+    ctx.extra['ast_interpreter_constructs'] = F.harvested_constructs()
+    for m_ in F.harvested_constructs():
+        if m_ not in F.CONSTRUCTS:
+            ctx.obligation_failed('control-flow family', f'AstInterpreter.{m_} is not covered by the control-flow family (harness/c17_flow.py CONSTRUCTS)')
+        elif F.CONSTRUCTS[m_] is not None and F.CONSTRUCTS[m_] not in seen_feats:
+            ctx.obligation_failed('control-flow family', f'no generated project exercised {m_} ({F.CONSTRUCTS[m_]})')
     kinds = R.harvest_hostile_token_kinds()
     ctx.extra['hostile_token_kinds'] = sorted(kinds)
     for tid, recipe in sorted(G.hostile_snippets(kinds).items()):
